@@ -105,29 +105,47 @@ class Menu:
         self.OP_INDEX = {op: i for i, op in enumerate(self.OPS)}
 
     def _ops(self):
+        """Mutator variants applied in every expanded state, simplest first.
+        Full cross product for the int spellings; the alternative spellings of tag 1 get every value / item /
+        index; refused spellings get the variants that can tell them apart."""
         ops = []
         nt = len(self.TAGS)
+        bad = [i for i in range(nt) if self.TAGS[i][1] is None]
+        good = [i for i in range(nt) if self.TAGS[i][1] is not None]
         for rep in (0, 1):
-            for ti in range(nt):
+            for ti in good:
                 for vi in range(len(self.VALUES)):
                     ops.append(("set", ti, vi, rep))
-        for ti in range(nt):
+            for ti in bad:
+                ops.append(("set", ti, 0, rep))
+        for ti in bad:
+            ops.append(("set", ti, 4, 0))
+        for ti in good:
             for vi in (0, 1):
                 ops.append(("setitem", ti, vi))
+        for ti in bad:
+            ops.append(("setitem", ti, 0))
         for ti in range(nt):
             ops.append(("del", ti))
-        for ti in range(nt):
+        for ti in good:
+            alt = self.TAGS[ti][2] != "int"
             for ii in range(self.N_VALID_ITEMS):
                 for idx in (-1, 0, 1):
                     for form in (0, 1):
-                        if self.TAGS[ti][1] is None and (form or idx == 1):
+                        if alt and form != (ii + idx) % 2:
                             continue
                         ops.append(("add_group", ti, ii, form, idx))
+        for ti in bad:
+            for idx in (-1, 0):
+                ops.append(("add_group", ti, 0, 0, idx))
         for ti in (2, 0, 6):
             for ii in range(self.N_VALID_ITEMS, len(self.ITEMS)):
                 ops.append(("add_group", ti, ii, 0, -1))
-        for ti in range(nt):
-            for li in range(self.N_VALID_LISTS):
+        for li in (1, 0, 2):
+            for ti in good:
+                ops.append(("set_group", ti, li))
+        for ti in bad:
+            for li in (1, 0):
                 ops.append(("set_group", ti, li))
         for ti in (2, 0, 6):
             for li in range(self.N_VALID_LISTS, len(self.LISTS)):
@@ -337,19 +355,26 @@ def judge(expect, exc):
     raise AssertionError(expect)
 
 
-def check_mut(M, cls, path, st, op):
-    """Run one mutator on a fresh real object in state st. -> (failure|None, expect, next state, info)."""
+def check_mut(M, cls, path, st, op, shared=None):
+    """Run one mutator on a real object in state st. -> (failure|None, expect, next state, info, reusable).
+
+    shared: a real object already in state st that may be used when the model expects a refusal
+    (the op must leave it unchanged); `reusable` tells whether it still is in state st afterwards."""
     expect, nst = model_apply(M, st, op)
-    obj = rebuild(M, cls, path)
+    if shared is not None and expect != "ok":
+        obj = shared
+    else:
+        obj = rebuild(M, cls, path)
+        shared = None
     exc = real_apply(M, obj, op)
     fail = judge(expect, exc)
     got = None
-    if fail is None or fail == "accepted" or fail.startswith("wrong_error"):
+    if shared is not None or fail is None or fail == "accepted" or fail.startswith("wrong_error"):
         got = snapshot(obj)
         if got != nst and fail is None:
             fail = "wrong_state" if expect == "ok" else "state_changed"
     info = {"raised": None if exc is None else f"{ename(exc)}: {exc}"[:160], "state_after": got}
-    return fail, expect, nst, info
+    return fail, expect, nst, info, (shared is not None and got == st)
 
 
 # attribute positions that may be simplified, per op kind: (position, base value, label)
@@ -373,7 +398,10 @@ def _deltas(M, op):
         else:
             out.append((2, None, M.ITEMS[op[2]].label))
     if kind == "set_group":
-        out.append((2, None, M.LISTS[op[2]][2]))
+        if op[2] >= M.N_VALID_LISTS:
+            out.append((2, None, M.LISTS[op[2]][2]))
+        elif op[2] != 1:
+            out.append((2, 1, M.LISTS[op[2]][2]))
     return out
 
 
@@ -600,20 +628,28 @@ def typed(v, alt):
     return v
 
 
+_SPELL = {}
+
+
 def spell(k, n):
-    opts = [int(k), k]
-    if k in ("1",):
-        opts.append(FTag.Account)
+    opts = _SPELL.get(k)
+    if opts is None:
+        opts = [int(k), k]
+        if k == "1":
+            opts.append(FTag.Account)
+        _SPELL[k] = opts
     return opts[n % len(opts)]
 
 
 def as_dict(st, alt=0, containers=False):
     """A plain dict with the content of a model state (groups as lists of dicts / containers)."""
     d = {}
-    for i, (k, v) in enumerate(st):
-        key = spell(k, alt * (i + 1))
-        if isinstance(v, str):
-            d[key] = typed(v, alt)
+    i = 0
+    for k, v in st:
+        i += 1
+        key = spell(k, alt * i)
+        if type(v) is str:
+            d[key] = typed(v, alt) if alt else v
         else:
             lst = []
             for j, it in enumerate(v):
@@ -636,33 +672,43 @@ def content_set(st):
     return frozenset(st)
 
 
-def container_variants(M, st):
-    """(variant name, model state of the other container, expected equality or None)."""
-    out = [("same_content", st, True), ("same_content_other_spelling", st, True)]
+def container_variants(M, st, full=True):
+    """(variant name, model state of the other container, expected equality or None).
+    full=False (deepest level only): one operand per kind, derived from the last tag."""
+    if full:
+        out = [("same_content", st, True), ("same_content_other_spelling", st, True)]
+    else:
+        out = [("same_content_other_spelling" if len(st) % 2 else "same_content", st, True)]
     present = {k for k, _ in st}
+    last = len(st) - 1
     for i, (k, v) in enumerate(st):
         if isinstance(v, str):
-            nv = M.B if v != M.B else M.A
-            out.append(("value_changed", st[:i] + ((k, nv),) + st[i + 1:], False))
+            if full or i == last:
+                nv = M.B if v != M.B else M.A
+                out.append(("value_changed", st[:i] + ((k, nv),) + st[i + 1:], False))
             if "|" in v:
                 # the printed-form twin: head value followed by the embedded "tag=value" as a real tag
                 head, rest = v.split("|", 1)
                 k2, v2 = rest.split("=", 1)
                 if k2 not in present:
                     out.append(("printed_form_split", st[:i] + ((k, head), (k2, v2)) + st[i + 1:], False))
-        else:
+        elif full or i == last:
             if v:
-                out.append(("group_item_removed", st[:i] + ((k, v[:-1]),) + st[i + 1:], False))
                 it = v[0]
                 it2 = ((it[0][0], it[0][1] + "z"),) + it[1:]
                 out.append(("group_item_value_changed", st[:i] + ((k, (it2,) + v[1:]),) + st[i + 1:], False))
-            out.append(("group_vs_plain", st[:i] + ((k, M.A),) + st[i + 1:], False))
-        out.append(("tag_removed", st[:i] + st[i + 1:], False))
-    for cn in M.CANON:
-        if cn not in present:
-            out.append(("tag_added", st + ((cn, M.A),), False))
-            break
-    if len(st) >= 2:
+                if full:
+                    out.append(("group_item_removed", st[:i] + ((k, v[:-1]),) + st[i + 1:], False))
+            if full or not v:
+                out.append(("group_vs_plain", st[:i] + ((k, M.A),) + st[i + 1:], False))
+        if full or i == 0:
+            out.append(("tag_removed", st[:i] + st[i + 1:], False))
+    if full or not st:
+        for cn in M.CANON:
+            if cn not in present:
+                out.append(("tag_added", st + ((cn, M.A),), False))
+                break
+    if full and len(st) >= 2:
         out.append(("reordered", tuple(reversed(st)), None))
     return out
 
@@ -687,7 +733,7 @@ def eq_fail(r, expected, groupish=False):
     return "returned_" + type(r[1]).__name__
 
 
-def observe_whole(M, cls, path, c, st, o):
+def observe_whole(M, cls, path, c, st, o, full=True):
     # ---- items(): insertion order + string values ---------------------------
     r = call(snapshot, c)
     o.n += 1
@@ -715,42 +761,45 @@ def observe_whole(M, cls, path, c, st, o):
         o.n += 1
         if f:
             o.add("eq_container", "eq", "pickle_copy", "int", None, f, "True", "c == pickle.loads(pickle.dumps(c))")
-    # ---- equality with containers --------------------------------------------------
-    for vi, (name, ost, exp) in enumerate(container_variants(M, st)):
+    # ---- equality with containers and with dicts of the same derived content ---------
+    g = has_group(st)
+    base = as_dict(st)
+    dvars = []
+    for vi, (name, ost, exp) in enumerate(container_variants(M, st, full)):
         ocls = "FIXContainer" if (vi % 2 == 0) else "FIXMessage"
         alt = 1 if name == "same_content_other_spelling" else 0
-        r = call(construct, ocls, ost, alt)
+        d = as_dict(ost, alt, containers=bool(alt))
+        if name != "printed_form_split":
+            dvars.append((name, d, True if name == "reordered" else exp))
+        r = call(FIXMessage, "D", d) if ocls == "FIXMessage" else call(FIXContainer, d)
         o.n += 1
         if not (r[0] and snapshot(r[1]) == ost):
-            o.add("ordered_map", "constructor", "whole", "int", None, r, repr(ost),
-                  f"{ocls}({as_dict(ost, alt)!r})")
+            o.add("ordered_map", "constructor", "whole", "int", None, r, repr(ost), f"{ocls}({d!r})")
             continue
         other = r[1]
-        for a, b, src in ((c, other, "c == other"), (other, c, "other == c")):
+        both = ((c, other, "c == other"), (other, c, "other == c"))
+        if exp is not True:
+            both = both[vi % 2:vi % 2 + 1]  # one direction, alternating (same_content: both)
+        for a, b, src in both:
             e = eq_call(a, b)
             o.n += 1
-            o.outcomes.add(("eq_container", name, _fk(e) if not e[0] else repr(e[1])))
+            o.outcomes.add(("eq_container", name, repr(e[1]) if e[0] else _fk(e)))
             f = eq_fail(e, exp)
             if f:
                 o.add("eq_container", "eq", name, "int", None, f, repr(exp),
-                      f"{src}  with other = {ocls}({as_dict(ost, alt)!r})")
-    # ---- equality with dicts ---------------------------------------------------------
-    g = has_group(st)
-    dvars = [("same_content", as_dict(st), True), ("same_content_other_spelling", as_dict(st, 1), True)]
-    for name, ost, exp in container_variants(M, st):
-        if name in ("value_changed", "tag_removed", "tag_added", "group_item_removed", "group_item_value_changed",
-                    "group_vs_plain", "reordered"):
-            dvars.append((name, as_dict(ost), True if name == "reordered" else exp))
+                      f"{src}  with other = {ocls}({d!r})")
     # framing tags only on the dict side (container lacks them)
-    for F in FRAMING:
-        d = as_dict(st)
+    frs = FRAMING if full else FRAMING[len(st) % 4:len(st) % 4 + 1]
+    for F in frs:
+        d = dict(base)
         d[F] = "X"
         dvars.append(("framing_only_in_dict", d, True))
-    d = as_dict(st)
-    d[FTag.MsgType] = "X"
-    dvars.append(("framing_only_in_dict", d, True))
-    for name, d, exp in dvars:
-        for src, e in (("c == d", eq_call(c, d)), ("d == c", eq_call(d, c))):
+    if full:
+        d = dict(base)
+        d[FTag.MsgType] = "X"
+        dvars.append(("framing_only_in_dict", d, True))
+    for vi, (name, d, exp) in enumerate(dvars):
+        for src, e in ((("c == d", eq_call(c, d)),) if vi % 2 else (("d == c", eq_call(d, c)),)):
             o.n += 1
             o.outcomes.add(("eq_dict", name, _fk(e) if not e[0] else repr(e[1])))
             f = eq_fail(e, exp, groupish=g or has_list(d))
@@ -764,18 +813,17 @@ def observe_whole(M, cls, path, c, st, o):
             ok = False
     o.n += 4
     if ok:
-        base = as_dict(st)
         fv = []
         fv.append(("framing_only_in_container", dict(base), True))
         d = dict(base)
         for F in FRAMING:
             d[F] = "X" + str(F)
         fv.append(("framing_both_same", d, True))
-        for F in FRAMING:
+        for F in frs:
             d = dict(base)
             d[F] = "other"
             fv.append(("framing_both_value_differs", d, True))
-        if st and not g:
+        if full and st and not g:
             k, v = st[0]
             d = dict(base)
             d[int(k)] = v + "z"
@@ -797,29 +845,33 @@ def has_list(d):
     return any(isinstance(v, list) for v in d.values())
 
 
-def observe(M, cls, path, st):
-    """All observers in one state -> (list of violation dicts, number of real calls, outcomes)."""
+def observe(M, cls, path, st, acc, full=True):
+    """All observers in one state; failures are recorded in acc -> (number of real calls, outcomes).
+    full=False: fewer second operands for the equality observers (used on the deepest level only)."""
     c = rebuild(M, cls, path)
     o = Obs()
     observe_tags(M, c, st, o)
-    # observers must not have changed anything
-    observe_whole(M, cls, path, c, st, o)
-    vio = []
-    failed_int = {(f[1], f[2], f[4]) for f in o.fails if f[3] == "int"}
-    for clause, observer, target, sk, canon, failure, detail in o.fails:
-        if sk == "int" or (observer, target, canon) in failed_int:
-            delta = "any_spelling"
-        else:
-            delta = "tag_" + sk
-        if observer == "eq":
-            sig = f"{clause}|{target}:{failure}"
-        else:
-            sig = f"{clause}|{observer}:{target}:{delta}:{failure}"
-        detail = dict(detail)
-        detail.update({"root": cls, "history": [M.describe(M.OPS[i]) for i in path], "model_state": st})
-        vio.append({"signature": sig, "clause": CLAUSES[clause], "detail": detail,
-                    "replay": {"cls": cls, "path": list(path), "check": "observe", "signature": sig}})
-    return vio, o.n, o.outcomes
+    observe_whole(M, cls, path, c, st, o, full)
+    if o.fails:
+        failed_int = {(f[1], f[2], f[4]) for f in o.fails if f[3] == "int"}
+        for clause, observer, target, sk, canon, failure, detail in o.fails:
+            if sk == "int" or (observer, target, canon) in failed_int:
+                delta = "any_spelling"
+            else:
+                delta = "tag_" + sk
+            if observer == "eq":
+                sig = f"{clause}|{target}:{failure}"
+            else:
+                sig = f"{clause}|{observer}:{target}:{delta}:{failure}"
+            x = acc.get(sig)
+            if x is not None:
+                x["count"] += 1
+                continue
+            detail = dict(detail)
+            detail.update({"root": cls, "history": [M.describe(M.OPS[i]) for i in path], "model_state": st})
+            acc[sig] = {"signature": sig, "clause": CLAUSES[clause], "detail": detail, "count": 1,
+                        "replay": {"cls": cls, "path": list(path), "check": "observe", "signature": sig}}
+    return o.n, o.outcomes
 
 
 # ---------------------------------------------------------------------------
@@ -849,7 +901,8 @@ def add_v(acc, v):
         x["count"] += 1
 
 
-def mut_violation(M, cls, path, st, op, fail, expect, info):
+def mut_violation(M, cls, path, st, op, fail, expect, info, acc):
+    """Classify one failing mutator case and record it in acc. -> signature."""
     mop, mfail, delta = classify_mut(M, cls, path, st, op, fail)
     clause = MUT_CLAUSE[(op[0], expect)]
     tk = kind_of(st, M.TAGS[op[1]][1])
@@ -857,46 +910,95 @@ def mut_violation(M, cls, path, st, op, fail, expect, info):
         n = len(dict(st)[M.TAGS[op[1]][1]])
         tk = "group_len0" if n == 0 else ("group_len1" if n == 1 else "group_len2plus")
     sig = f"{clause}|{opname(op)}:{tk}:{delta}:{mfail}"
+    x = acc.get(sig)
+    if x is not None:
+        x["count"] += 1
+        return sig
     if mop != op:
-        fail2, expect2, nst2, info2 = check_mut(M, cls, path, st, mop)
+        fail2, expect2, nst2, info2, _r = check_mut(M, cls, path, st, mop)
         if fail2 is not None:
             op, fail, expect, info = mop, fail2, expect2, info2
     nst = model_apply(M, st, op)[1]
-    return {
-        "signature": sig, "clause": CLAUSES[clause],
+    acc[sig] = {
+        "signature": sig, "clause": CLAUSES[clause], "count": 1,
         "detail": {"root": cls, "history": [M.describe(M.OPS[i]) for i in path], "model_state_before": st,
                    "operation": M.describe(op), "expectation": expect, "expected_state_after": nst,
                    "failure": fail, "observed": info},
         "replay": {"cls": cls, "path": list(path), "check": "mutate", "op": list(op), "signature": sig},
     }
+    return sig
+
+
+def base_of(M, op):
+    """The simplest variant of an op (int spelling, first value, first item as dict, default index)."""
+    b = op
+    for pos, base, _label in _deltas(M, op):
+        if base is not None:
+            b = b[:pos] + (base,) + b[pos + 1:]
+    return b
+
+
+def expand_state(M, cls, path, st, acc, outcomes):
+    """Every mutator variant in one state. -> (children bytes, number of mutator executions)."""
+    kids = []
+    seen = {st}
+    failed = {}
+    nmut = 0
+    shared = rebuild(M, cls, path)
+    for oi, op in enumerate(M.OPS):
+        fail, expect, nst, info, reusable = check_mut(M, cls, path, st, op, shared)
+        nmut += 1
+        if expect != "ok" and not reusable:
+            shared = rebuild(M, cls, path)
+        if fail is None:
+            outcomes.add((opname(op), expect, kind_of(st, M.TAGS[op[1]][1])))
+            if nst not in seen:
+                seen.add(nst)
+                kids.append(key8(nst) + bytes((oi & 255, oi >> 8)))
+        else:
+            outcomes.add((opname(op), expect, "FAIL:" + fail))
+            failed[op] = (fail, expect, info)
+    if failed:
+        # attribute each failing variant to its simplest relative when that one fails in the same way (cheap);
+        # otherwise simplify it parameter by parameter to name what is needed to fail
+        sig_of_base = {}
+        rest = []
+        for op, (fail, expect, info) in failed.items():
+            if base_of(M, op) == op:
+                sig_of_base[op] = mut_violation(M, cls, path, st, op, fail, expect, info, acc)
+            else:
+                rest.append(op)
+        for op in rest:
+            fail, expect, info = failed[op]
+            b = base_of(M, op)
+            if b in failed and failed[b][:2] == (fail, expect):
+                acc[sig_of_base[b]]["count"] += 1
+            else:
+                mut_violation(M, cls, path, st, op, fail, expect, info, acc)
+    return b"".join(kids), nmut
 
 
 def work(item):
-    """Observe one state; optionally expand it. -> (violations, children bytes, counters, outcomes)."""
-    path, expand = item
+    """Observe (and optionally expand) a chunk of states.
+    -> (violations, [children bytes per state], counters, outcomes)."""
+    paths, expand = item
     M, cls = G["M"], G["cls"]
-    st = model_state(M, path)
     acc = {}
-    vio, ncalls, outcomes = observe(M, cls, path, st)
-    for v in vio:
-        add_v(acc, v)
-    nmut = 0
+    outcomes = set()
+    ncalls = nmut = nontrivial = 0
     kids = []
-    if expand:
-        seen = {st}
-        for oi, op in enumerate(M.OPS):
-            fail, expect, nst, info = check_mut(M, cls, path, st, op)
-            nmut += 1
-            if fail is None:
-                outcomes.add((opname(op), expect, kind_of(st, M.TAGS[op[1]][1])))
-                if nst not in seen:
-                    seen.add(nst)
-                    kids.append(key8(nst) + bytes((oi & 255, oi >> 8)))
-            else:
-                outcomes.add((opname(op), expect, "FAIL:" + fail))
-                add_v(acc, mut_violation(M, cls, path, st, op, fail, expect, info))
-    nontrivial = 1 if (has_group(st) or len(st) >= 2) else 0
-    return list(acc.values()), b"".join(kids), (ncalls, nmut, nontrivial), outcomes
+    for path in paths:
+        st = model_state(M, path)
+        n, outs = observe(M, cls, path, st, acc, full=expand)
+        ncalls += n
+        outcomes |= outs
+        if expand:
+            k, m = expand_state(M, cls, path, st, acc, outcomes)
+            kids.append(k)
+            nmut += m
+        if has_group(st) or len(st) >= 2:
+            nontrivial += 1
+    return list(acc.values()), kids, (ncalls, nmut, nontrivial), outcomes
 
 
 def pair_work(i):
@@ -927,7 +1029,9 @@ def pair_work(i):
         f = eq_fail(e, exp)
         if f:
             add_v(acc, pair_violation(M, "eq_container", rel, f, i, j, si, sj, exp, "container"))
-        g = has_group(si) or has_group(sj)
+        if has_group(si) or has_group(sj):
+            continue  # dict comparison with groups: documented FIXMessageError, covered per state
+        g = False
         e = eq_call(ci, dicts[j])
         n += 1
         outs.add(("pair_dict", rel, _fk(e) if not e[0] else repr(e[1])))
@@ -970,21 +1074,24 @@ def explore(ctx, M, cls, depth, pair_depth):
     per_level = []
     for d in range(depth + 1):
         expand = d < depth
-        items = [(p, expand) for p in level]
-        res = ctx.pmap(work, items, chunk=max(1, min(64, len(items) // (ctx.workers * 6) or 1)))
+        size = 8 if expand else 96
+        size = max(1, min(size, len(level) // (ctx.workers * 4) or 1))
+        items = [(level[i:i + size], expand) for i in range(0, len(level), size)]
+        res = ctx.pmap(work, items, chunk=1)
         nxt = []
-        for (p, _e), (vio, kids, (nc, nm, nt), outs) in zip(items, res):
+        for (paths, _e), (vio, kidlist, (nc, nm, nt), outs) in zip(items, res):
             if vio:
                 ctx.merge_violations(vio)
             tot_obs += nc
             tot_mut += nm
             tot_nontriv += nt
             ctx.outcomes.update(outs)
-            for o in range(0, len(kids), 10):
-                h = kids[o:o + 8]
-                if h not in seen:
-                    seen.add(h)
-                    nxt.append(p + (kids[o + 8] | (kids[o + 9] << 8),))
+            for p, kids in zip(paths, kidlist):
+                for o in range(0, len(kids), 10):
+                    h = kids[o:o + 8]
+                    if h not in seen:
+                        seen.add(h)
+                        nxt.append(p + (kids[o + 8] | (kids[o + 9] << 8),))
         tot_states += len(level)
         per_level.append(len(level))
         if d <= pair_depth:
@@ -1068,13 +1175,15 @@ def replay(ctx, rep):
     else:
         cls, path = rep["cls"], tuple(rep["path"])
         st = model_state(M, path)
+        acc = {}
         if rep["check"] == "observe":
-            out, _n, _o = observe(M, cls, path, st)
+            observe(M, cls, path, st, acc)
         else:
             op = tuple(rep["op"])
-            fail, expect, nst, info = check_mut(M, cls, path, st, op)
+            fail, expect, nst, info, _r = check_mut(M, cls, path, st, op)
             if fail is not None:
-                out.append(mut_violation(M, cls, path, st, op, fail, expect, info))
+                mut_violation(M, cls, path, st, op, fail, expect, info, acc)
+        out = list(acc.values())
     if want:
         same = [v for v in out if v["signature"] == want]
         if same:
